@@ -196,3 +196,9 @@ pub fn reform_era_day(n: i64) -> bool {
   let r = |a: (i64, i64, i64), b: (i64, i64, i64)| n >= c.dn(a.0, a.1, a.2) && n <= c.dn(b.0, b.1, b.2);
   r((9, 1, 1), (9, 1, 14)) || r((24, 1, 1), (24, 2, 28)) || r((25, 1, 1), (25, 2, 16)) || r((240, 1, 1), (240, 2, 9))
 }
+
+/// a reform-era day within the 32 days up to and including n: day-level answers that start from the
+/// month's Jie day (the inverse eight-character search) inherit the wrong pillar of that day
+pub fn reform_era_near(n: i64) -> bool {
+  (0..=32).any(|k| n - k >= FIRST && reform_era_day(n - k))
+}
